@@ -165,6 +165,13 @@ class VFun2:
         self.arr = arr
 
 
+class VPairs:
+    """immutable sequence of pairs of ints (e.g. sorted(enumerate(p), key=snd)): length + two arrays"""
+
+    def __init__(self, length, first, second):
+        self.length, self.first, self.second = length, first, second
+
+
 class VRange:
     def __init__(self, lo, hi, step=1):
         self.lo, self.hi, self.step = lo, hi, step
@@ -541,14 +548,14 @@ class Engine:
         return d
 
     # ------------------------------------------------------------------ top level
-    def verify(self, rel, qual):
-        """generate all obligations of one function under its contract"""
+    def verify(self, rel, qual, contract=None, label=None):
+        """generate all obligations of one function under its contract (or a variant of it)"""
         key = (rel, qual)
-        c = self.contracts[key]
+        c = contract or self.contracts[key]
         srel, squal = c.get('source', (rel, qual))      # contract on a class MODEL: code lives under `source`
         node = self.repo.find(srel, squal)
         rel = srel
-        self.cur_func = '{}:{}'.format(srel, squal)
+        self.cur_func = '{}:{}{}'.format(srel, squal, '#' + label if label else '')
         n0 = len(self.obligations)
         self.work = [[]]
         self.exits = {'normal': 0, 'raise': {}}
@@ -631,6 +638,7 @@ class Engine:
         except PyExc as e:
             outcome = ('raise', e)
         fr = self.frames[-1]
+        self.final_env = env
         post_env = dict(entry)
         post_env['__old__'] = old
         if outcome[0] == 'normal':
@@ -795,6 +803,8 @@ class Engine:
                 return
             if isinstance(base, VTuple) and base.kind == 'tuple':
                 raise PyExc('TypeError', t.lineno)
+            if isinstance(base, VOpaque):
+                return                       # store into an unmodelled container (e.g. the header dict)
             if isinstance(base, VArr):
                 i = self.norm_index(idx, base.length, t)
                 base.arr = z3.Store(base.arr, i, toz(v))
@@ -1022,6 +1032,10 @@ class Engine:
             niter = it.length
             arr0 = it.arr
             elem = lambda i: z3.Select(arr0, i)
+        elif isinstance(it, VPairs):
+            niter = it.length
+            pf, ps = it.first, it.second
+            elem = lambda i: VTuple([z3.Select(pf, i), z3.Select(ps, i)], 'tuple')
         elif isinstance(it, VTerms):
             niter = specs.tlen(it.term)
             t0 = it.term
@@ -1175,6 +1189,14 @@ class Engine:
             return VTuple(a.items * b, a.kind)
         if isinstance(a, str) and isinstance(b, str) and isinstance(op, ast.Add):
             return a + b
+        if isinstance(a, VTuple) and isinstance(op, ast.Mult) and is_z3(b) and len(a.items) == 1 \
+                and (a.items[0] is None or isinstance(a.items[0], int) or is_z3(a.items[0])):
+            n = zmax(toz(b), z3.IntVal(0))
+            if a.items[0] is None:
+                # [None] * n : a table to be filled; entries are unconstrained ints until assigned (reads of
+                # unassigned slots are not modelled - stated assumption)
+                return VArr(z3.simplify(n), self.fresh('table', z3.ArraySort(z3.IntSort(), z3.IntSort())))
+            return VArr(z3.simplify(n), z3.K(z3.IntSort(), toz(a.items[0])))
         if isinstance(a, VTuple) and isinstance(op, ast.Mult) and is_z3(b):
             return VOpaque('list repeated a symbolic number of times')
         if isinstance(a, str) or isinstance(b, str):
@@ -1227,6 +1249,9 @@ class Engine:
             a = a.ident
         if isinstance(b, VClass):
             b = b.ident
+        if isinstance(op, (ast.Eq, ast.NotEq)) and (isinstance(a, str) != isinstance(b, str)) and \
+                (isinstance(a, (VArr, VRange, VPairs, VTuple, VSeq)) or isinstance(b, (VArr, VRange, VPairs, VTuple, VSeq))):
+            return isinstance(op, ast.NotEq)         # a list never equals a string
         if isinstance(op, (ast.Is, ast.IsNot)):
             if a is None or b is None:
                 other = b if a is None else a
@@ -1303,6 +1328,8 @@ class Engine:
             if isinstance(x, int) and x == 0:
                 return specs.haszero(container.term)
             raise Unsupported('membership in abstract sequence')
+        if isinstance(container, VOpaque):
+            return self.fresh('opaque_in', z3.BoolSort())     # content not modelled: either answer
         if isinstance(container, VArr2) and container.present is not None:
             return z3.Select(container.present, toz(x))
         if isinstance(container, VSet2) and isinstance(x, VTuple) and len(x.items) == 2:
@@ -1398,6 +1425,11 @@ class Engine:
             raise Unsupported('subscript of range')
         if isinstance(base, VObj):
             return self.call_method(base, '__getitem__', [idx], {}, e)
+        if isinstance(base, VOpaque):
+            return '<str>'
+        if isinstance(base, VPairs):
+            i = toz(idx) if getattr(self, 'in_spec', False) else self.norm_index(idx, base.length, e)
+            return VTuple([z3.Select(base.first, i), z3.Select(base.second, i)], 'tuple')
         raise Unsupported('subscript of {!r} (line {})'.format(base, e.lineno))
 
     def slice(self, base, sl, env, node):
@@ -1410,6 +1442,8 @@ class Engine:
             t = z3.Int('rev!j')
             n = base.length
             return VArr(n, z3.Lambda([t], z3.Select(base.arr, n - 1 - t)))
+        if isinstance(base, VSeq) and lo is None and hi is None and st is None:
+            return base
         if isinstance(base, (VArr, VRow)) and lo is None and hi is None and st is None:
             return VArr(base.length, base.arr)         # slice copy: fresh list, same content
         if isinstance(base, VCon) and lo is None and hi == -2 and st is None:
@@ -1443,6 +1477,14 @@ class Engine:
             return VTuple(out, 'list')
         if isinstance(it, VRange) and all(isinstance(x, int) for x in (it.lo, it.hi, it.step)):
             return self.ev_ListComp_concrete(e, env, [x for x in range(it.lo, it.hi, it.step)])
+        if isinstance(it, VRange) and it.step == 1 and isinstance(g.target, ast.Name) and isinstance(e.elt, ast.Tuple) \
+                and len(e.elt.elts) == 2:
+            t = self.fresh('pair_' + g.target.id)
+            e2 = dict(env)
+            e2[g.target.id] = toz(it.lo) + t
+            a, b = self.eval(e.elt.elts[0], e2), self.eval(e.elt.elts[1], e2)
+            n = z3.simplify(zmax(toz(it.hi) - toz(it.lo), z3.IntVal(0)))
+            return VPairs(n, z3.Lambda([t], toz(a)), z3.Lambda([t], toz(b)))
         if isinstance(it, VRange) and it.step == 1 and isinstance(g.target, ast.Name):
             # [f(t) for t in range(lo,hi)] -> (length, lambda-array); f is evaluated once, symbolically
             t = self.fresh('cmp_' + g.target.id)
@@ -1451,10 +1493,22 @@ class Engine:
             saved = len(self.pc)
             n = zmax(toz(it.hi) - toz(it.lo), z3.IntVal(0))
             self.pc.append(z3.And(t >= 0, t < n))          # hazards inside the element are checked for a generic index
+            self.demonic = []
             try:
                 body = self.eval(e.elt, e2)
+                facts = list(self.pc[saved + 1:])
             finally:
                 del self.pc[saved:]
+                dem, self.demonic = self.demonic, None
+            if dem:
+                # the element calls a nondeterministic library function (e.g. random.choice): one fresh value PER index
+                subs = []
+                for c in dem:
+                    arr = self.fresh('dem_arr', z3.ArraySort(z3.IntSort(), c.sort()))
+                    subs.append((c, z3.Select(arr, t)))
+                body = z3.substitute(toz(body), *subs)
+                for f in facts:
+                    self.pc.append(z3.ForAll([t], z3.Implies(z3.And(t >= 0, t < n), z3.substitute(f, *subs))))
             if not (is_z3(body) and z3.is_int(body)) and not isinstance(body, int):
                 raise Unsupported('comprehension element is not an int (line {})'.format(e.lineno))
             diff = z3.simplify(toz(body) - t)
@@ -1462,6 +1516,15 @@ class Engine:
                 # unit-stride progression  [c+lo, c+lo+1, ...]: an abstract literal list apseq(start, n)
                 return VSeq(specs.apseq(z3.simplify(z3.substitute(toz(body), (t, z3.IntVal(0)))), z3.simplify(n)))
             return VArr(z3.simplify(n), z3.Lambda([t], toz(body)))
+        if isinstance(it, VSeq) and it.sortname == 'ISeq' and isinstance(g.target, ast.Name) and isinstance(e.elt, ast.Subscript) \
+                and isinstance(e.elt.slice, ast.Name) and e.elt.slice.id == g.target.id:
+            table = self.eval(e.elt.value, env)
+            if isinstance(table, VArr):
+                # [A[l] for l in seq]: every index must be a legal python index into the table
+                if not getattr(self, 'in_spec', False):
+                    self.oblige('hazard', 'table indices in bounds: {}'.format(ast.unparse(e)),
+                                specs.maxabs(it.term) < toz(table.length), e.lineno)
+                return VSeq(specs.imapsub(it.term, table.arr, toz(table.length)))
         if isinstance(it, VTerms) and isinstance(g.target, ast.Tuple) and len(g.target.elts) == 2:
             c, l = [x.id for x in g.target.elts]
             if ast.unparse(e.elt) == '(-{}, {})'.format(c, l):
@@ -1548,6 +1611,10 @@ class Engine:
         # library models
         lib = LIBRARY.get(name)
         mi = self.modinfo
+        if lib is None and '.' in name and name.split('.')[0] in mi['imports']:
+            mod, orig = mi['imports'][name.split('.')[0]]
+            if orig is None:
+                lib = LIBRARY.get(mod + '.' + name.split('.', 1)[1])
         if name in mi['imports']:
             mod, orig = mi['imports'][name]
             lib = LIBRARY.get('{}.{}'.format(mod, orig)) or lib
@@ -1849,6 +1916,9 @@ def _mentions(e, v):
 def as_arr(v):
     if isinstance(v, VArr):
         return v
+    if isinstance(v, VRange) and v.step == 1:
+        t = z3.Int('rng!j')
+        return VArr(zmax(toz(v.hi) - toz(v.lo), z3.IntVal(0)), z3.Lambda([t], toz(v.lo) + t))
     if isinstance(v, VTuple):
         a = z3.K(z3.IntSort(), z3.IntVal(0))
         for i, x in enumerate(v.items):
@@ -1867,6 +1937,14 @@ def sf_old(eng, node, env):
 
 
 sf_old.raw = True
+
+
+def sf_final(eng, node, name):
+    """value of a local variable of the function under verification at its exit (witness for an existential post)"""
+    env = getattr(eng, 'final_env', None)
+    if env is None or name not in env or env[name] is UNBOUND:
+        raise SpecError('no local variable {} at exit'.format(name))
+    return env[name]
 
 
 def sf_created(eng, node, cls, i):
@@ -1937,7 +2015,9 @@ def _wrap(fn, ret=None):
 
 
 SPEC_FUNCS = {
-    'old': sf_old, 'implies': sf_implies, 'forall': sf_forall_int, 'created': sf_created,
+    'old': sf_old, 'implies': sf_implies, 'forall': sf_forall_int, 'created': sf_created, 'final': sf_final,
+    'imapsub': lambda eng, node, sq, A, n: VSeq(specs.imapsub(_term(sq), as_arr(A).arr, toz(n))),
+    'isperm': lambda eng, node, A, n, base: specs.isperm(as_arr(A).arr, toz(n), toz(base)),
     'lam2': sf_lam2, 'card2': lambda eng, node, st: specs.card2(st.arr),
     'gdom': _wrap(specs.gdom), 'grng': _wrap(specs.grng), 'rowlits': _wrap(specs.rowlits), 'collits': _wrap(specs.collits),
     'm_complete': _wrap(specs.m_complete), 'm_functional': _wrap(specs.m_functional),
@@ -1986,6 +2066,8 @@ def b_len(eng, node, v):
     if isinstance(v, (VSeq, VMList)):
         return {'ISeq': specs.ilen, 'CSeq': specs.clen, 'OSeq': specs.olen}[v.term.sort().name()](v.term)
     if isinstance(v, VArr):
+        return v.length
+    if isinstance(v, VPairs):
         return v.length
     if isinstance(v, VSet2):
         return specs.card2(v.arr)
@@ -2054,6 +2136,13 @@ def b_list(eng, node, v=None):
     if isinstance(v, VObj):
         r = eng.call_method(v, '__iter__', [], {}, node)
         return b_list(eng, node, r)
+    if isinstance(v, VRange) and v.step == 1:
+        t = z3.Int('iota!j')
+        a = VArr(z3.simplify(zmax(toz(v.hi) - toz(v.lo), z3.IntVal(0))), z3.Lambda([t], toz(v.lo) + t))
+        a.iota = toz(v.lo)
+        return a
+    if isinstance(v, VArr):
+        return VArr(v.length, v.arr)
     raise Unsupported('list() of {!r}'.format(v))
 
 
@@ -2096,6 +2185,11 @@ def b_zip(eng, node, *args):
 def b_enumerate(eng, node, a):
     if isinstance(a, VTuple):
         return VTuple([VTuple([i, x]) for i, x in enumerate(a.items)], 'list')
+    if isinstance(a, VArr):
+        t = z3.Int('enum!j')
+        r = VPairs(a.length, z3.Lambda([t], t), a.arr)
+        r.enumerate_of = a
+        return r
     raise Unsupported('enumerate of symbolic sequence')
 
 
@@ -2136,7 +2230,7 @@ def b_next(eng, node, a):
     raise Unsupported('next of symbolic iterator')
 
 
-BUILTINS = {'len': b_len, 'abs': b_abs, 'min': b_minmax('min'), 'max': b_minmax('max'), 'range': b_range,
+BUILTINS = {'sorted': lambda eng, node, seq, key=None: lib_sorted(eng, node, seq, key), 'len': b_len, 'abs': b_abs, 'min': b_minmax('min'), 'max': b_minmax('max'), 'range': b_range,
             'list': b_list, 'tuple': b_list, 'isinstance': b_isinstance, 'int': b_int, 'zip': b_zip,
             'enumerate': b_enumerate, 'sum': b_sum_raw, 'next': b_next, 'iter': lambda eng, node, v: v}
 
@@ -2288,6 +2382,60 @@ def lm_dict_get(eng, node, d, key, default=None):
     return VTuple([], 'list')
 
 
+def lib_random_choice(eng, node, seq):
+    """demonic random.choice: any element of a concrete list of ints"""
+    if not (isinstance(seq, VTuple) and seq.items and all(isinstance(x, int) for x in seq.items)):
+        raise Unsupported('random.choice on a symbolic sequence')
+    c = eng.fresh('choice')
+    eng.pc.append(z3.Or([c == x for x in seq.items]))
+    if getattr(eng, 'demonic', None) is not None:
+        eng.demonic.append(c)
+    return c
+
+
+def lib_random_shuffle(eng, node, lst):
+    """demonic random.shuffle: leaves some permutation of the list in place"""
+    if not isinstance(lst, VArr):
+        raise Unsupported('random.shuffle on {!r}'.format(lst))
+    base = getattr(lst, 'iota', None)
+    new = eng.fresh('shuffled', lst.arr.sort())
+    if base is not None:
+        eng.pc.append(specs.isperm(new, toz(lst.length), base))     # a permutation of base..base+n-1 stays one
+    lst.arr = new
+    return None
+
+
+def lib_sorted(eng, node, seq, key=None):
+    if isinstance(seq, VPairs) and getattr(seq, 'enumerate_of', None) is not None and isinstance(key, VClosure) \
+            and isinstance(key.node, ast.Lambda) and ast.unparse(key.node.body) == '{}[1]'.format(key.node.args.args[0].arg):
+        # sorted(enumerate(p), key=lambda x: x[1])  for p a permutation of 0..n-1: the i-th element is (p^-1(i), i)
+        p = seq.enumerate_of
+        n = toz(p.length)
+        eng.oblige('pre', 'sorted(enumerate(p), key=second) is modelled for a permutation p of 0..n-1', specs.isperm(p.arr, n, z3.IntVal(0)), node.lineno)
+        t = z3.Int('snd!j')
+        return VPairs(p.length, specs.invperm(p.arr, n), z3.Lambda([t], t))
+    if isinstance(seq, VArr) and key is None:
+        new = VArr(seq.length, eng.fresh('sorted', seq.arr.sort()))
+        k, j = z3.Int('k!so'), z3.Int('j!so')
+        n = toz(seq.length)
+        eng.pc.append(z3.ForAll([k, j], z3.Implies(z3.And(0 <= k, k < j, j < n), z3.Select(new.arr, k) <= z3.Select(new.arr, j))))
+        eng.pc.append(specs.sortedperm(new.arr, seq.arr, n))
+        return new
+    if isinstance(seq, VTuple) and key is None and all(isinstance(x, int) for x in seq.items):
+        return VTuple(sorted(seq.items), 'list')
+    raise Unsupported('sorted of {!r}'.format(seq))
+
+
+def lib_copy(eng, node, x):
+    if isinstance(x, VOpaque):
+        return VOpaque('copy of ' + x.what)
+    raise Unsupported('copy of {!r}'.format(x))
+
+
+LIBRARY['random.choice'] = lib_random_choice
+LIBRARY['random.shuffle'] = lib_random_shuffle
+LIBRARY['copy.copy'] = lib_copy
+LIBRARY['copy'] = lib_copy
 LIBRARY['bisect.bisect_right'] = lib_bisect_right
 LIST_METHODS = {('VArr2', 'get'): lm_dict_get, ('VRow', 'insert'): lm_row_insert, ('VRow', 'remove'): lm_row_remove, ('VArr2', 'append'): lm_arr2_append,
                 ('VSet2', 'add'): lm_set_add, ('VSet2', 'remove'): lm_set_remove,('VTuple', 'append'): lm_append, ('VMList', 'append'): lm_append, ('VArr', 'append'): lm_append,
